@@ -96,6 +96,9 @@ impl Config {
             } else {
                 self.js_config.set(&key.replace("js.", ""), value);
             }
+        } else if SharedConfig::overrides_shared(key) {
+            // `<language>.<shared key>` for a backend without settings of its own (c, cpp, dart, ...)
+            self.language_overrides.insert(key.to_string(), value);
         } else {
             self.shared_config.set(key, value)
         }
